@@ -227,7 +227,8 @@ class Interp(Ops, B.BuiltinsMixin):
                 value.wrapped_ctx = True
             elif base in ("abstractmethod", "wraps", "deprecated", "overload", "cached_property"):
                 if base == "cached_property":
-                    value = PropertyV(fget=value)
+                    # computed once per instance, then the stored result is returned (functools.cached_property)
+                    value = PropertyV(fget=B.CachedFunc(value))
             elif base in ("cache", "lru_cache"):
                 value = B.CachedFunc(value)
             else:
